@@ -120,6 +120,9 @@ inductive Ty
   | map (k v : Ty)         -- std::map<K,V>
   | pair (a b : Ty)        -- std::pair<A,B>; serializable class with members a, b (`ar & a & b`)
   | ptr (t : Ty)           -- booster::shared_ptr / std::unique_ptr / booster::copy_ptr ...
+  | mset (t : Ty)          -- std::multiset<T>
+  | mmap (k v : Ty)        -- std::multimap<K,V>
+  | arr (t : Ty) (n : Nat) -- T[n], T not arithmetic: n elements, no count (arithmetic T[n] is one chunk = `pod`)
   deriving DecidableEq, Repr
 
 /-- values: PODs and POD vectors are their raw bytes; sets and maps are the in-order element lists -/
@@ -132,6 +135,9 @@ def Val : Ty → Type
   | .map k v => List (Val k × Val v)
   | .pair a b => Val a × Val b
   | .ptr t => Option (Val t)
+  | .mset t => List (Val t)
+  | .mmap k v => List (Val k × Val v)
+  | .arr t _ => List (Val t)
 
 /-! ## ordering of keys (`operator<` of the C++ types) -/
 
@@ -159,6 +165,9 @@ def lt : (ty : Ty) → Val ty → Val ty → Bool
     | none, some _ => true
     | some x, some y => lt t x y
     | _, _ => false
+  | .mset t, a, b => ltLex (lt t) a b
+  | .mmap k v, a, b => ltLex (fun x y => lt k x.1 y.1 || (!lt k y.1 x.1 && lt v x.2 y.2)) a b
+  | .arr t _, a, b => ltLex (lt t) a b
 
 /-- `std::set<T>::insert(x)`: position by `<`, an equivalent element already present wins -/
 def setInsert {α : Type} (lt : α → α → Bool) (x : α) : List α → List α
@@ -169,6 +178,17 @@ def setInsert {α : Type} (lt : α → α → Bool) (x : α) : List α → List 
 def mapInsert {α β : Type} (lt : α → α → Bool) (x : α × β) : List (α × β) → List (α × β)
   | [] => [x]
   | y :: ys => if lt x.1 y.1 then x :: y :: ys else if lt y.1 x.1 then y :: mapInsert lt x ys else y :: ys
+
+/-- `std::multiset<T>::insert(x)`: behind the elements that are not greater (equal elements are
+indistinguishable for the key types used) -/
+def msetInsert {α : Type} (lt : α → α → Bool) (x : α) : List α → List α
+  | [] => [x]
+  | y :: ys => if lt x y then x :: y :: ys else y :: msetInsert lt x ys
+
+/-- `std::multimap<K,V>::insert(pair)`: at the upper bound of the key (entries with equal keys keep their order) -/
+def mmapInsert {α β : Type} (lt : α → α → Bool) (x : α × β) : List (α × β) → List (α × β)
+  | [] => [x]
+  | y :: ys => if lt x.1 y.1 then x :: y :: ys else y :: mmapInsert lt x ys
 
 /-! ## save -/
 
@@ -186,6 +206,9 @@ def save : (ty : Ty) → Val ty → Bytes
   | .map k w, v => saveCount v.length ++ v.flatMap (fun x => save k x.1 ++ save w x.2)
   | .pair a b, v => save a v.1 ++ save b v.2
   | .ptr t, v => savePtr (save t) v
+  | .mset t, v => saveCount v.length ++ v.flatMap (save t)
+  | .mmap k w, v => saveCount v.length ++ v.flatMap (fun x => save k x.1 ++ save w x.2)
+  | .arr t _, v => v.flatMap (save t)
 
 /-! ## load -/
 
@@ -208,6 +231,12 @@ def setOfList {α : Type} (lt : α → α → Bool) (l : List α) : List α :=
 def mapOfList {α β : Type} (lt : α → α → Bool) (l : List (α × β)) : List (α × β) :=
   l.foldl (fun acc x => mapInsert lt x acc) []
 
+def msetOfList {α : Type} (lt : α → α → Bool) (l : List α) : List α :=
+  l.foldl (fun acc x => msetInsert lt x acc) []
+
+def mmapOfList {α β : Type} (lt : α → α → Bool) (l : List (α × β)) : List (α × β) :=
+  l.foldl (fun acc x => mmapInsert lt x acc) []
+
 def load (b : Bytes) : (ty : Ty) → St → Res (Val ty)
   | .pod n, s => readChunk b n s
   | .str, s => readChunkAsString b s
@@ -220,6 +249,10 @@ def load (b : Bytes) : (ty : Ty) → St → Res (Val ty)
   | .ptr t, s =>
     (readChunk b Gen.ptrFlagLen s).bind fun flag s1 =>
       if leNat flag != 0 then .ok none s1 else (load b t s1).map some
+  | .mset t, s => (loadCount b s).bind fun n s1 => (loadN (load b t) n s1).map (msetOfList (lt t))
+  | .mmap k v, s =>
+    (loadCount b s).bind fun n s1 => (loadN (loadPair (load b k) (load b v)) n s1).map (mmapOfList (lt k))
+  | .arr t n, s => loadN (load b t) n s
 
 def St.init : St := { ptr := 0, reads := [] }
 
